@@ -341,3 +341,13 @@ class Mode(enum.Enum):
   """Same name as Outer.Mode at module level."""
   TRAIN = 10
   EVAL = 20
+
+
+FLAKY = {'fail': False}
+
+
+def flaky(x='fx'):
+  """Raises while the harness has switched failures on."""
+  if FLAKY['fail']:
+    raise RuntimeError('flaky factory failed')
+  return vfx.rec('flaky', locals())
